@@ -1337,3 +1337,62 @@ def rule_nested_forms(ctx, rep: Report, rid="S2"):
         rep.add(rid, f"nested:{form.split(' (')[0]}:rewritten at every depth of the template arguments", ok,
                 f"the recursive walk ({', '.join(f.name for f in rec)}) has no case for {form}: {witnesses.get(form, '')} - the property asks for "
                 f"every occurrence at any depth", f"{mi.rel}:{rec[0].lineno}")
+
+
+def rule_instantiated_siblings(ctx, rep: Report, rid="S10"):
+    """The instantiated node classes are siblings: each stands in for a parser node of its kind and is read through the same
+    attributes (name, parent, template, original, instantiations ...).  An attribute that every other sibling assigns in
+    its constructor and one does not (nor inherits from a base constructor it calls) is missing on that kind of node -
+    `namespaces()` / `to_cpp()` of such a node fail or answer for the wrong scope."""
+    prog = ctx.prog
+    names = ["InstantiatedClass", "InstantiatedMethod", "InstantiatedStaticMethod", "InstantiatedConstructor",
+             "InstantiatedGlobalFunction", "InstantiatedDeclaration"]
+    sets: Dict[str, Set[str]] = {}
+    for nme in names:
+        ci = prog.cls(nme)
+        acc: Set[str] = set()
+        todo = [ci]
+        seen = set()
+        while todo:
+            k = todo.pop()
+            if k.qual in seen:
+                continue
+            seen.add(k.qual)
+            init = k.methods.get("__init__")
+            if init is None:
+                todo += [b for b in prog.mro(k)[1:2]]
+                continue
+            for x in walk_no_nested(init):
+                if isinstance(x, ast.Attribute) and isinstance(x.ctx, ast.Store) and isinstance(x.value, ast.Name) and x.value.id == "self":
+                    acc.add(x.attr)
+            # attributes set by a base constructor that this one calls
+            if any(isinstance(c, ast.Call) and "__init__" in unparse(c.func) and ("super(" in unparse(c.func) or "." in unparse(c.func))
+                   for c in walk_no_nested(init)):
+                todo += [b for b in prog.mro(k)[1:] if b.methods.get("__init__") is not None][:1]
+        sets[nme] = acc
+    # confirmed by reading: these four are what the generic code reads on every instantiated node (namespaces()/to_cpp() walk
+    # .parent, naming uses .name, the emitters read .original and .instantiations); other attributes differ by kind for a reason
+    # (e.g. a forward declaration has no template list of its own)
+    CORE = ("original", "instantiations", "name", "parent")
+    # the scope an instantiated node belongs to is the scope of what it was instantiated from
+    for nme in names:
+        ci = prog.cls(nme)
+        init = ci.methods.get("__init__")
+        if init is None:
+            continue
+        op = func_params(init)[1]
+        vals = [unparse(st.value) for st in walk_no_nested(init) if isinstance(st, ast.Assign) and any(
+            isinstance(t, ast.Attribute) and isinstance(t.value, ast.Name) and t.value.id == "self" and t.attr == "parent" for t in st.targets)]
+        for c in walk_no_nested(init):
+            if isinstance(c, ast.Call) and "__init__" in unparse(c.func):
+                vals += [unparse(k.value) for k in c.keywords if k.arg == "parent"]
+        okv = bool(vals) and all(v in (f"{op}.parent", "self.parent", "parent", f"self.{op}.parent") for v in vals)
+        rep.add(rid, f"siblings:{nme}:`parent` is the parent of the node it was instantiated from", okv,
+                f"parent <- {vals}: an instantiated node detached from (or attached elsewhere than) its original's scope spells its C++ name "
+                f"without / with the wrong namespaces", f"{ci.mod.rel}:{init.lineno}")
+    for nme in names:
+        for attr in CORE:
+            rep.add(rid, f"siblings:{nme}:constructor sets `{attr}`", attr in sets[nme],
+                    f"{nme}.__init__ (and the base constructor it calls) never assigns self.{attr}: namespaces() / to_cpp() / the emitters read "
+                    f"it on every instantiated node, so this kind of node fails or is attributed to the wrong scope",
+                    f"{prog.cls(nme).mod.rel}:{prog.cls(nme).node.lineno}")
